@@ -47,6 +47,12 @@ CLAIMED = {
          "Thread-modular: each method is verified against its contract for an arbitrary state of the other sharers. The step from 'every sharer follows strict 2PL on a capacity-one semaphore' to 'committed sections are serializable in commit order, no lost update / dirty read' is the classical 2PL theorem, argued in DESIGN.md section 3 (C07), not mechanised; "
          "time.After is modelled as returning a fresh channel the runtime sends on; the channel is assumed never closed (nothing in the package closes it); GetState (persistence snapshot; conditional deferred release) and fairness/liveness of the timed acquisition (no deadlock because every wait is bounded) are NOT covered by obligations.",
          "contract-based deductive verification: WP over go/ssa, ghost channel send/receive counts as lock tokens, cut-point obligations at every access and release, z3/cvc5"),
+ "C11": ("Deductive proof of the acceptor rules the two-phase-commit variable rests on, as two-state contracts of the locked region of receiveInternal (strict monitor on the resource mutex; atlock = state when the lock was taken): versions only grow; a stale message (version below current+1) and GetState change nothing and a stale message is rejected; a PreCommit never changes value or version, is accepted only into a state that records exactly that proposal (version, proposer by abstract value), "
+         "is rejected without effect when another proposer's PreCommit for the same version or a PreCommit for a higher version is held, and a re-sent PreCommit of the held proposal is accepted again; the proposer's own Abort releases the held proposal and another proposer's Abort releases nothing (these two obligations failed on the pinned tree: genuine defect, fixed in 063c2402); a Commit installs exactly the proposed value and version (strictly greater, otherwise panic) and poisons a local section in flight; "
+         "WriteValue enters the section, changes only the working value, and is refused once the section is poisoned or its pre-commit failed.",
+         "NOT covered, hence not decided: everything that involves more than one replica — agreement ('every replica installs the same value for each version', 'at most one proposer wins each version'), the proposer side (PreCommit/doPreCommit/Commit/rollback/broadcast with majorities, backoff, timeouts), progress, transports (LocalReplicaHandle/RPCReplicaHandle), Abort/ReadValue of the resource (ReadValue writes criticalSectionState while holding only the read lock — noted in DESIGN.md section 7, not claimed as a defect), Close. "
+         "Assumed: versions stay below 2^63-1; logging/timing helpers have no effect on the protected state.",
+         "contract-based deductive verification: strict monitor, two-state postconditions relative to lock acquisition, abstract-value equality of TLA+ values (C05), inlining with statically resolved branches, z3/cvc5"),
  "C12": ("Deductive proof for the grow-only counter: Init/Read/Write/Merge against the partial-map view (Merge = pointwise max on the union of keys, Write adds to one slot, Read = wrapped sum), and, as pure lemmas over those contracts, that Merge is commutative, associative and idempotent and Write (non-negative, no overflow) is an inflation.",
          "NOT covered: AWORSet, LWWSet and their gob pairs (not decided by this check; two genuine defects in them are recorded in DESIGN.md section 4 from probes, not from this check); the sum over an unordered map is axiomatised by its insert step; counts are int32 with wrap-around modelled.",
          "contract-based deductive verification: functional contracts + semilattice lemmas, z3/cvc5"),
